@@ -26,7 +26,7 @@ MIX = {
     'C04': [('quota', 3), ('exact', 3), ('random', 2), ('tie', 1)],
     'C05': [('coalition', 4), ('random', 2)],
     'C06': [('chain', 3), ('random', 3), ('quota', 1)],
-    'C07': [('tie', 3), ('prior', 2), ('random', 2), ('quota', 1), ('bullet', 1), ('coalition', 1)],
+    'C07': [('tie', 3), ('prior', 2), ('reversal', 1), ('writein', 1), ('random', 2), ('quota', 1), ('bullet', 1), ('coalition', 1)],
     'C08': [('random', 4), ('tie', 1), ('quota', 1)],
     'C09': [('random', 4), ('tie', 1), ('coalition', 1), ('bullet', 2), ('exact', 1)],
     'C18': [('random', 4), ('tie', 1), ('quota', 1)],
@@ -234,6 +234,11 @@ def render_stage(R, tier):
 
 def configs_for(rule, rng, shape, all_=False):
     "exact-threshold profiles are built for two decimal places: run them on the p=2 variants"
+    if shape == 'quota' and rule == 'wigm':
+        return [(dict(rule=rule, arithmetic='fixed', precision=rng.choice([1, 2]), integer_quota=True), None),
+                (dict(rule=rule, arithmetic=rng.choice(['guarded', 'rational']), integer_quota=True), None) if rng.random() < 0.5 else
+                (dict(rule=rule, arithmetic='guarded', precision=3, guard=2, integer_quota=True), None),
+                (dict(rule=rule, arithmetic=rng.choice(['integer', 'fixed']), precision=2), None)] + gen.configs(rule, rng)
     if shape != 'exact':
         return gen.configs(rule, rng, all_=all_)
     if rule == 'wigm':
@@ -311,11 +316,11 @@ def check_counts(prop, tier):
     for i in range(nprof):
         shape = pick_shape(rng, MIX[prop])
         pr = make_profile(rng, shape, prop)
-        if (prop == 'C08' and rng.random() < 0.4) or (prop == 'C02' and rng.random() < 0.2):
+        if (prop == 'C08' and rng.random() < 0.4) or (prop == 'C02' and rng.random() < 0.2) or (prop == 'C04' and rng.random() < 0.12):
             pr = gen.randprofile(rng, wd=True, eq=True, maxc=6, maxlines=8)
         blt = drive.mkblt(**pr)
         for rule in rules:
-            if pr.get('eqlines') and rule not in ('meek', 'warren'):
+            if pr.get('eqlines') and rule not in ('meek', 'warren') and prop != 'C04':
                 continue
             for opts, lp in configs_for(rule, rng, shape, all_=(tier == 'thorough' and i % 5 == 0)):
                 budget = 10
@@ -443,7 +448,7 @@ def check_c03(tier):
         meta.clear()
 
     for i in range(nprof):
-        shape = pick_shape(rng, [('random', 4), ('tie', 2), ('prior', 2), ('quota', 2), ('exact', 2), ('chain', 2), ('coalition', 1), ('bullet', 1)])
+        shape = pick_shape(rng, [('random', 4), ('tie', 2), ('prior', 2), ('reversal', 2), ('writein', 2), ('quota', 2), ('exact', 2), ('chain', 2), ('coalition', 1), ('bullet', 1)])
         pr = make_profile(rng, shape, 'C01')
         if shape == 'random' and rng.random() < 0.5:
             pr = gen.randprofile(rng, wd=True, und=True, maxc=5, maxlines=7)
@@ -908,6 +913,7 @@ def check_blt(prop, tier):
     recs, meta = [], {}
     rid = 0
     skipped = collections.Counter()
+    skipped_path = collections.Counter()
     nwf = 150 if tier == 'quick' else 3000
     nfz = 700 if tier == 'quick' else 20000
     texts = []
@@ -926,7 +932,19 @@ def check_blt(prop, tier):
         except blt.Big:
             skipped['number beyond 10^8'] += 1
             continue
-        real, ctor_ok, ctor_exc = blt.real_outcome(text)
+        if want is not None and rid % 5 == 0:
+            # the same well-formed text read from a file (UTF-8, with a byte-order mark every other time)
+            import tempfile
+            fd, pth = tempfile.mkstemp(prefix='vblt-', suffix='.blt')
+            with os.fdopen(fd, 'wb') as fh:
+                fh.write((b'\xef\xbb\xbf' if rid % 10 == 0 else b'') + text.encode('utf-8'))
+            try:
+                real, ctor_ok, ctor_exc = blt.real_outcome(path=pth)
+            finally:
+                os.unlink(pth)
+            skipped_path['read through path=%s' % (' with BOM' if rid % 10 == 0 else '')] += 1
+        else:
+            real, ctor_ok, ctor_exc = blt.real_outcome(text)
         rid += 1
         recs.append(dict(id=rid, words=W, real=real, ctor_ok=ctor_ok, want=want if want is not None else dict(none=True), kf=''))
         meta[rid] = (text, real, ctor_exc)
@@ -959,6 +977,7 @@ def check_blt(prop, tier):
     R.cov['real_outcomes'] = dict(outcomes)
     R.cov['spec_code_divergence_counts'] = dict(binds)
     R.cov['skipped'] = dict(skipped)
+    R.cov['files_read_through_path'] = dict(skipped_path)
     for t, w in texts[:2] + texts[-2:]:
         R.sample(dict(text=t, wellformed=w is not None))
     R.cov['rule'] = ('well-formed renderings of random abstract elections (layout, nested /* */ and # comments, quoted names with comment markers and '
